@@ -37,6 +37,9 @@ Judge(e) ==
                ELSE IF frozen /\ "bn_running" \in SetOf(e.writes) THEN "frozen_statistics_written"
                ELSE "undocumented_state_write")
       ELSE IF MustRepeat(e.op) /\ e.repeat = "neq" THEN "repeat_differs"
+      \* evaluation mode: what a call returns is what a freshly built model with the same state dict
+      \* returns for the same arguments - it does not depend on the calls made before
+      ELSE IF mode = "eval" /\ e.twin = "neq" THEN "depends_on_history"
       ELSE "ok"
   ELSE IF e.a = "SaveLoadFresh" THEN
       (IF ~e.same THEN "reload_differs" ELSE "ok")
